@@ -73,7 +73,10 @@ def eval_point(case):
     mass = np.array([W / g0])
     rocd = np.array([float(fr(c['rocd']))])
     acc = np.array([float(fr(c['a'])) * g0])
-    cruise = np.array([bool(c['cruise'])])
+    # the cruise flag is a truth value; it may arrive as bool, 0/1 integer or 0.0/1.0 float array (the signature says
+    # FloatOrNDArray): the form is chosen deterministically per case
+    form = (len(c['eng']) + int(bool(c['cruise'])) + int(round(float(fr(c['v'])))) + int(round(float(fr(c['W'])))) // 100) % 3
+    cruise = np.array([bool(c['cruise'])]).astype([bool, np.int64, float][form])
     em = model.engine_model
     cl = model.calculate_cl(mass, rho, v)
     drag = model.calculate_drag(model.calculate_cd(cl), rho, v)
@@ -141,7 +144,7 @@ def run_mass(case):
                         gs.append(500.0), cr.append(False)
                     else:
                         gs.append(250.0), cr.append(True)
-                gs, cr = np.array(gs), np.array(cr)
+                gs, cr = np.array(gs), np.array(cr).astype([bool, np.int64, float][(sum(prof) + n) % 3])
                 z = np.zeros(n)
                 # true airspeed = ground speed - wind component (a piston engine's fuel flow does not depend on it)
                 tas = gs - np.array(case['wind'], float)
@@ -152,7 +155,7 @@ def run_mass(case):
                     else:
                         got = model.iterate_flight_simulation_constant_final_mass(*args, float(case['anchor']), n_iter=n_iter)
                     if not np.allclose(got, want, rtol=1e-9, atol=1e-9):
-                        devs.append((f'iterate:{case["dir"]}', f'piston profile gs={gs.tolist()} tas={tas.tolist()} ({case["windname"]} wind) cruise={cr.tolist()} n_iter={n_iter}: mass = {np.asarray(got).tolist()}; specification: {want.tolist()}'))
+                        devs.append((f'iterate:{case["dir"]}', f'piston profile gs={gs.tolist()} tas={tas.tolist()} ({case["windname"]} wind) cruise={cr.tolist()} ({cr.dtype}) n_iter={n_iter}: mass = {np.asarray(got).tolist()}; specification: {want.tolist()}'))
                         break
                 if case['dir'] == 'forward':
                     burn = float(want[0] - want[-1])
